@@ -64,8 +64,11 @@ def w_tdvp1(ctx, rng, idx):
     nz = 0 if rng.random() < 0.8 else 2
     ctx.describe({'op': 'tdvp1site', 'dims': dims, 'complex': cplx, 'ranks': x0.ranks, 'kind': kind, 'h': h, 'steps': N, 'normalize': nz})
     call('ode.tdvp1site', ode.tdvp1site, H, x0, h, N, prop=P, tags=['scheme=tdvp1site'], normalize=nz)
-    if rng.random() < 0.4:  # the same operator / state objects again with another step size and step count
+    if rng.random() < 0.4:  # the same operator / state objects again with another step size and step count, then with the operator rescaled in place
         call('ode.tdvp1site', ode.tdvp1site, H, x0, float(rng.uniform(0.01, 0.3)), int(rng.integers(1, 4)), prop=P, tags=['scheme=tdvp1site', 'second_call'], normalize=nz)
+        with probe.oracle():
+            H.cores[-1] = H.cores[-1] * float(rng.uniform(0.4, 0.9))
+        call('ode.tdvp1site', ode.tdvp1site, H, x0, h, N, prop=P, tags=['scheme=tdvp1site', 'second_call', 'objects_changed_in_place'], normalize=nz)
     if idx < 3:
         ctx.sample({'workload': 'tdvp1site', 'dims': dims, 'complex_operator': cplx, 'initial_ranks': x0.ranks, 'h': h, 'steps': N})
 
@@ -106,13 +109,36 @@ def w_krylov(ctx, rng, idx):
     h = float(rng.uniform(0.05, 1.0))
     ctx.describe({'op': 'krylov', 'dims': dims, 'complex': cplx, 'dimension': n, 'h': h})
     call('ode.krylov', ode.krylov, H, x0, n, h, prop=P, threshold=[0, 1e-14][int(rng.integers(0, 2))], max_rank=10 ** 4, normalize=[0, 0, 2][int(rng.integers(0, 3))])
-    if rng.random() < 0.4:  # the same operator / state objects again with another step size
+    if rng.random() < 0.5:  # the same operator / state objects again: another step size, and the objects changed in place by their owner
         call('ode.krylov', ode.krylov, H, x0, n, float(rng.uniform(0.05, 1.0)), prop=P, threshold=0, max_rank=10 ** 4, tags=['second_call'])
+        with probe.oracle():
+            if rng.random() < 0.5:
+                x0.conj(overwrite=True) if rng.random() < 0.5 else x0.cores.__setitem__(0, x0.cores[0] * np.exp(1j * rng.uniform(0.3, 3.0)))
+            else:
+                H.cores[0] = H.cores[0] * float(rng.uniform(0.4, 0.9))
+        call('ode.krylov', ode.krylov, H, x0, n, h, prop=P, threshold=0, max_rank=10 ** 4, tags=['second_call', 'objects_changed_in_place'])
     if rng.random() < 0.3 and n > 2:  # small Krylov space: only structure / inputs unchanged are asserted
         call('ode.krylov', ode.krylov, H, x0, 2, h, prop=P)
 
 
+def w_long(ctx, rng, idx):
+    """one call over more than a thousand steps (housekeeping that an implementation might do every so many steps must not
+    disturb the conserved quantities): small chains, ranks below maximal, norm and energy monitored at every micro-step"""
+    dims = [[2, 3, 2], [2, 2, 2, 2], [3, 2]][idx % 3]
+    d = len(dims)
+    cplx = bool(rng.integers(0, 2))
+    with probe.oracle():
+        H = gen.hermitian_tt(rng, dims, 2, cplx)
+        H = (1.0 / max(float(np.linalg.norm(mat(dense(H)), 2)), 1e-12)) * H
+        r = gen.feasible_ranks(dims, [1] * d, [1] + [2] * (d - 1) + [1])
+        x0 = tt.TT(gen.right_orthonormal_cores(gen.rand_cores(rng, dims, [1] * d, r, cplx)))
+    N = int(rng.integers(1001, 1100))
+    ctx.describe({'op': 'tdvp1site long run', 'dims': dims, 'ranks': x0.ranks, 'steps': N})
+    call('ode.tdvp1site', ode.tdvp1site, H, x0, 0.01, N, prop=P, tags=['scheme=tdvp1site', 'long_run'])
+
+
 WORKLOADS = [
+    Workload('long', w_long, 1, 6),
     Workload('tdvp1site', w_tdvp1, 160, 3000),
     Workload('tdvp2site', w_tdvp2, 120, 2500),
     Workload('hybrid', w_hybrid, 60, 1200),
